@@ -78,6 +78,19 @@ theorem lastSome_sorted {β : Type} (f : TEv → Option β) (tr : Trace) (b : β
     · exact Int.le_refl _
     · exact absurd (hpost x hx) hne
 
+/-- … with the split of the trace at the last such event -/
+theorem lastSome_sorted_split {β : Type} (f : TEv → Option β) (tr : Trace) (b : β) (hs : Sorted tr)
+    (h : lastSome f tr = some b) :
+    ∃ pre a post, tr = pre ++ a :: post ∧ f a = some b ∧ (∀ x ∈ post, f x = none) ∧ ∀ x ∈ tr, f x ≠ none → x.t ≤ a.t := by
+  obtain ⟨pre, a, post, rfl, ha, hpost⟩ := lastSome_eq_some f tr b h
+  refine ⟨pre, a, post, rfl, ha, hpost, ?_⟩
+  intro x hx hne
+  rcases List.mem_append.mp hx with hx | hx
+  · exact (List.pairwise_append.mp hs).2.2 x hx a (by simp)
+  · rcases List.mem_cons.mp hx with rfl | hx
+    · exact Int.le_refl _
+    · exact absurd (hpost x hx) hne
+
 
 /-! ### typed views -/
 
